@@ -54,6 +54,10 @@ def obligations(tier):
     # half of the time): rounding must be as accurate below zero as above it
     for name, kw, w, k in (("WMA", dict(period=2), 1, 1), ("WMA", dict(period=3), 2, 1), ("SMA", dict(period=2), 1, None), ("EMA", dict(period=2), 1, 3), ("RMA", dict(period=2), 1, 3)):
         obs.append(Ob(f"{spec_name(('ind', name, kw))}/definition-within-rounding-slack/signed late input/n={w + 4}", dict(spec=["ind", name, kw], n=w + 4, tf=None, part="definition", k=k, late=1), INV, weight=20, budget_s=300))
+    # an average over a BOOLEAN series (the candle's own positive / negative flag): True counts 1, False counts 0, the average
+    # lies in [0, 1] and equals the share of True readings in its window
+    for name, kw, w in (("SMA", dict(period=2, input_value="positive"), 1), ("SMA", dict(period=3, input_value="negative"), 2), ("WMA", dict(period=2, input_value="positive"), 1), ("EMA", dict(period=2, input_value="positive"), 1)):
+        obs.append(Ob(f"{spec_name(('ind', name, kw))}/average of a boolean series/n={w + 4}", dict(spec=["ind", name, kw], n=w + 4, tf=None, part="bool-average"), INV, weight=20, budget_s=300, max_paths=200000))
     # composites whose helper series keep THEIR OWN (default, 4-decimal) rounding whatever the parent's round_value is:
     # stored == round_rv(definition) within 0.5*10^-rv for the parent's rounding + a few helper roundings at 4 decimals
     # (not Supertrend: its direction flips are discontinuous in the rounded bands; not ATR/EMA/...: a top-level recursive
@@ -145,6 +149,17 @@ def run(ctx, P):
         for c in clone(cs):
             live.append(c)
         recheck("live appends", live.as_list())
+        return
+    if part == "bool-average":
+        flag = kw["input_value"]
+        ones = [(1.0 if bool(getattr(c, flag)) else 0.0) for c in cd]          # (forks on the comparison when symbolic)
+        for i, r in enumerate(out):
+            if r is None:
+                continue
+            R("boolean-average in [0,1]", (r >= -(i + 2) * H) & (r <= 1 + (i + 2) * H), f"candle {i}: {r!r}")      # (running updates: one rounding per step)
+            if name == "SMA":
+                ctx.close(f"{name}:share of True readings in the window", r, sum(ones[i - p + 1: i + 1]) / p, (i + 2) * H)
+        R("first reading at the first full window", all(v is None for v in out[: p - 1]) and out[p - 1] is not None, f"{out!r}")
         return
     if part == "definition-rv":
         from harness.defs import expected
